@@ -164,6 +164,21 @@ def register():
             raise TypeError("x")
         return x + 100 * y
 
+    # dictionary-valued commands: NOT part of the exported vocabulary (the model's value domain has no dictionaries); used by the
+    # implementation-side oracles only (C18: data characteristics of a value that a command mutated in place)
+    @first_command
+    def dct(k="a"):
+        _log("root", "dct", None, k)
+        return {k: 1}
+
+    @command
+    def setk(d, k="b"):
+        _log("root", "setk", None, k)
+        if not isinstance(d, dict):
+            raise TypeError("d")
+        d[k] = len(d) + 1    # in place; returns the very object it was given
+        return d
+
     @command(ns="alt")
     def only(x):
         _log("alt", "only", x)
